@@ -167,6 +167,7 @@ type world struct {
 	cur     int
 	nthr    int
 	dnlMs   int
+	fibM    int // 0 = name tree, else hash table with this m
 	probeN  []string // names probed in the dead nonce list
 	probeX  []uint32
 	// bookkeeping for the generator
@@ -197,7 +198,14 @@ func newWorld(w *bufio.Writer, nthreads int, dnlMs ...int) *world {
 	table.Configure()
 	wd.t0 = time.Now()
 	core.ShouldQuit = false
-	table.CreateFIBTable("nametree")
+	if len(dnlMs) > 1 && dnlMs[1] > 0 {
+		wd.fibM = dnlMs[1]
+		cfg.Tables.Fib.Hashtable.M = uint16(wd.fibM)
+		core.LoadConfig(cfg, "/tmp")
+		table.CreateFIBTable("hashtable")
+	} else {
+		table.CreateFIBTable("nametree")
+	}
 	table.VerifResetNetworkRegion()
 	table.NetworkRegion.Add(parseName(regionName))
 	table.VerifSetCsFlags(true, true)
@@ -890,7 +898,20 @@ func (g *gen) script() []string {
 			fmt.Sprintf("sleep %d", int64(150000000)), fmt.Sprintf("sweep %d", k),
 			i(f2, a), i(f1, a)}
 	}
-	switch g.r.Intn(5) {
+	switch g.r.Intn(6) {
+	case 5:
+		// forwarded, satisfied by Data that is stale at once, revived before the PIT sweep by a MustBeFresh Interest the cache cannot
+		// answer (forwarded, short lifetime), expires unsatisfied at a PIT update; then the same name and nonce loop back on another face
+		up := g.faces[g.r.Intn(len(g.faces))]
+		ops := []string{fmt.Sprintf("fib ins %s %d 0", n, up),
+			fmt.Sprintf("int %d %s 0 1 %s 10000 - - - -", f1, n, a),
+			fmt.Sprintf("data %d %s - %s", up, n, g.pick([]string{"@", "-"})),
+			fmt.Sprintf("int %d %s 0 1 %s 50 - - - -", f1, n, b),
+			"sleep 200000000"}
+		for k := 0; k < g.wd.nthr; k++ {
+			ops = append(ops, fmt.Sprintf("tick %d", k))
+		}
+		return append(ops, fmt.Sprintf("int %d %s 0 1 %s 10000 - - - -", f2, n, b), fmt.Sprintf("int %d %s 0 1 %s 10000 - - - -", f1, n, b))
 	case 4:
 		// a cache hit on a PIT entry that still holds another face's unsatisfied in-record: A asks for a child name, C asks for the
 		// parent with CanBePrefix, upstream answers C echoing C's token with Data named like A's Interest (cached, A stays
@@ -1042,7 +1063,7 @@ func header(wd *world, k int, names []string, nonces []uint32) {
 	for i, x := range nonces {
 		xs[i] = strconv.FormatUint(uint64(x), 10)
 	}
-	wd.pf("cfg threads=%d dnl=%d cscap=1024 region=%s\n", wd.nthr, int64(wd.dnlMs)*1000000, regionName)
+	wd.pf("cfg threads=%d dnl=%d cscap=1024 region=%s fibm=%d\n", wd.nthr, int64(wd.dnlMs)*1000000, regionName, wd.fibM)
 	// the thread HashNameToFwThread selects for every name of the universe and every prefix of one
 	hs := []string{}
 	for _, n := range prefixClosure(names) {
@@ -1099,17 +1120,20 @@ func TestTrace(t *testing.T) {
 		}
 		for k, ops := range cases {
 			synctest.Test(t, func(t *testing.T) {
-				nt, dl := 1, 0
-				for len(ops) > 0 && (strings.HasPrefix(ops[0], "threads ") || strings.HasPrefix(ops[0], "dnl ")) {
+				nt, dl, fm := 1, 0, 0
+				for len(ops) > 0 && (strings.HasPrefix(ops[0], "threads ") || strings.HasPrefix(ops[0], "dnl ") || strings.HasPrefix(ops[0], "fibm ")) {
 					v, _ := strconv.Atoi(strings.Fields(ops[0])[1])
-					if strings.HasPrefix(ops[0], "threads ") {
+					switch {
+					case strings.HasPrefix(ops[0], "threads "):
 						nt = v
-					} else {
+					case strings.HasPrefix(ops[0], "dnl "):
 						dl = v
+					default:
+						fm = v
 					}
 					ops = ops[1:]
 				}
-				wd := newWorld(w, nt, dl)
+				wd := newWorld(w, nt, dl, fm)
 				header(wd, k, universe, pool)
 				for _, op := range ops {
 					wd.exec(normalizeOp(op))
@@ -1131,7 +1155,11 @@ func TestTrace(t *testing.T) {
 			if r.Intn(3) == 0 {
 				dl = []int{300, 300, 1000}[r.Intn(3)]
 			}
-			wd := newWorld(w, nt, dl)
+			fm := 0 // FIB implementation: the name tree, or (a third of the cases) the hash table with m = 1, 2, 3 or 5
+			if r.Intn(3) == 0 {
+				fm = []int{1, 2, 3, 5}[r.Intn(4)]
+			}
+			wd := newWorld(w, nt, dl, fm)
 			g := &gen{r: r, names: universe, wd: wd}
 			// hot names: a small shared-prefix cluster so that PIT entries collide, aggregate and multi-match
 			base := g.pick([]string{"/8.1", "/8.1/8.2", "/8.0/8.4", "/8.0", "/8.2", "/"})
